@@ -25,7 +25,9 @@ ROOT=os.environ['ROOT']
 rows=[]
 for f in sorted(glob.glob(ROOT+'/seeded/*/meta.json')):
     m=json.load(open(f)); r=m.get('check_result',{})
-    rows.append("| %s | %s | %s | %s | %s |"%(m['id'],m['property'],(m.get('title') or '')[:90].replace('|','/'),'DETECTED' if r.get('detected') else 'missed (rc=%s)'%r.get('exit_code'),r.get('violation_class') or ''))
+    res='DETECTED' if r.get('detected') else 'missed (rc=%s)'%r.get('exit_code')
+    if m.get('scope_note') and not r.get('detected'): res='outside the property as quantified (see meta.json)'
+    rows.append("| %s | %s | %s | %s | %s |"%(m['id'],m['property'],(m.get('title') or '')[:90].replace('|','/'),res,r.get('violation_class') or ''))
 open(ROOT+'/seeded/RESULTS.md','w').write("# Seeded changes vs checks (written by tools/run_seeded.sh)\n\n| id | property | change | result | violation class |\n|---|---|---|---|---|\n"+"\n".join(rows)+"\n")
 print(open(ROOT+'/seeded/RESULTS.md').read())
 PY
